@@ -265,6 +265,7 @@ PROPS["C12"] = {
 }
 
 PROPS["C05"] = {
+    "hang_s": 90,
     "source": "c05_emitted.cc",
     "level": "exploration",
     "fuzz": False,
@@ -286,6 +287,7 @@ PROPS["C05"] = {
 }
 
 PROPS["C02"] = {
+    "hang_s": 90,
     "source": "c02_roundtrip.cc",
     "level": "exploration",
     "fuzz": False,
@@ -305,6 +307,8 @@ PROPS["C02"] = {
 }
 
 PROPS["C14"] = {
+    "hang_s": 90,
+    "noshrink": True,  # a case takes seconds: the unshrunk input is the replay file
     "source": "c14_limits.cc",
     "level": "fault_enumeration",
     "fuzz": False,
@@ -325,6 +329,8 @@ PROPS["C14"] = {
 }
 
 PROPS["C08"] = {
+    "hang_s": 90,
+    "noshrink": True,  # a case takes seconds: the unshrunk input is the replay file
     "source": "c08_lifecycle.cc",
     "level": "exploration",
     "fuzz": False,
@@ -344,6 +350,7 @@ PROPS["C08"] = {
 }
 
 PROPS["C06"] = {
+    "hang_s": 90,
     "source": "c06_writes.cc",
     "level": "fault_enumeration",
     "fuzz": False,
@@ -363,6 +370,8 @@ PROPS["C06"] = {
 }
 
 PROPS["C07"] = {
+    "hang_s": 90,
+    "noshrink": True,  # a case takes seconds: the unshrunk input is the replay file
     "source": "c07_blocked_peer.cc",
     "level": "fault_enumeration",
     "fuzz": False,
@@ -378,4 +387,26 @@ PROPS["C07"] = {
     "assumptions": ["a 4 KiB SO_SNDBUF/SO_RCVBUF pair fills after a few KiB so that the remaining hundreds of KiB stay pending"],
     "quick": {"stages": [{"kind": "replay"}, {"kind": "rc", "procs": 6, "cases": 4, "maxlen": 200}]},
     "thorough": {"stages": [{"kind": "replay"}, {"kind": "rc", "procs": 8, "cases": 60, "maxlen": 200}]},
+}
+
+PROPS["C15"] = {
+    "hang_s": 90,
+    "noshrink": True,  # a case takes seconds: the unshrunk input is the replay file
+    "source": "c15_client.cc",
+    "level": "exploration",
+    "fuzz": False,
+    "rule": ("one case = a fresh Http::Experimental::Client (1-3 threads, maxConnectionsPerHost 1-4) issuing a batch of 1-40 tagged POST requests (tag in path and body) from 1-2 user threads, "
+             "back to back or with gaps, some with a 0.3-1.0 s time-out, against a scripted raw server whose behaviour per tag is generated: immediate, delayed 1-200 ms, response dribbled in "
+             "generated segments (1-3 byte first segment, 0.2-2 ms gaps), chunked, close after the response, an unparsable status line, never answering (only with a time-out). Oracle per "
+             "request: settled at most once; fulfilled only with the response whose X-Tag and body carry its own tag; fulfilled if the server wrote a complete well-formed response at least "
+             "250 ms before its time-out; rejected if it reached the server and its time-out expired (within time-out + 2 s for never-answered ones). Server side: sampled simultaneous "
+             "connections never above the limit twice in a row; no bytes of a second request before the previous response. Non-trivial = more requests than the limit and >=2 behaviours, one of "
+             "them delayed or dribbled; distinct = hash of the case. oracle_subchecks = batches run."),
+    "engine": "rapidcheck",
+    "technique": "property-based testing (rapidcheck) of the real client against a generated scripted server (response segmentation, delays, closes, malformed and missing answers as injected behaviours); oracle = per-request tag matching and settlement accounting, server-side connection invariants",
+    "level_text": "Generated batches x server behaviours; OS-level interleavings between client threads are sampled, not owned. Exploration only.",
+    "level_note": "A request the server never saw (sent on a connection the server had already closed) may be rejected. Time-related verdicts follow the 3x replay rule. Requests stay far below the socket buffer size.",
+    "assumptions": ["250 ms of slack between the server finishing a response and the request's time-out is enough for loopback delivery"],
+    "quick": {"stages": [{"kind": "replay"}, {"kind": "rc", "procs": 6, "cases": 18, "maxlen": 400}]},
+    "thorough": {"stages": [{"kind": "replay"}, {"kind": "rc", "procs": 8, "cases": 600, "maxlen": 400}]},
 }
